@@ -1,7 +1,7 @@
 EXPLANATION = ('C14: UniformXTabulated2DFunction in its three interpolation policies and LiveOilPvt / WetGasPvt filled the way initFromState fills them (appendXPos/appendSamplePoint, real initEnd): node honouring, the undersaturated surface meets the saturated curve, bracketing, saturation pressure inverts the saturated Rs/Rv relation incl. its AD derivative; Tabulated1DFunction (setXYContainers/sorting, findSegmentIndex incl. bisection, eval, evalDerivative, extrapolation) and DeadOilPvt / DryGasPvt built from hand-set tables '
   '(initEnd 1/(B mu) tabulation, inverseFormationVolumeFactor, viscosity) with symbolic nodes and evaluation point, double and AD arguments.')
 BOUNDS = '2-D tables: 2 (thorough 3) columns x 2 samples, all real values; 1-D tables with 3, 4 and 5 (thorough: 6) strictly increasing nodes, all real node values (y > 0 for PVT), evaluation point anywhere in / outside the range'
-OUTSIDE = 'initFromState reading of PVTO/PVTG tables from an EclipseState (table extension for single-row columns, unit conversion), PVTW/PVCDO closed forms, more than two samples per 2-D column, IEEE rounding; saturation pressure: result within 1e-9 (relative) of a table node and tables flatter than 1e-20 excluded (the Newton loop documents both escapes)'
+OUTSIDE = 'initFromState reading of PVTO/PVTG tables from an EclipseState (table extension for single-row columns, unit conversion), more than two samples per 2-D column, IEEE rounding; saturation pressure: result within 1e-9 (relative) of a table node and tables flatter than 1e-20 excluded (the Newton loop documents both escapes)'
 ASSUMPTIONS = ['doubles as reals']
 TUS = ['opm/material/fluidsystems/blackoilpvt/DeadOilPvt.cpp', 'opm/material/fluidsystems/blackoilpvt/DryGasPvt.cpp']
 def jobs(tier):
@@ -14,7 +14,7 @@ def jobs(tier):
     for nx in ((2,) if tier == 'quick' else (2, 3)):
         for pol in (0, 1, 2):
             if nx == 3 and pol == 1: continue      # RightExtreme with three columns: z3 gives up on the guide-curve identity (stated in DESIGN.md); two columns are decided
-            out.append(dict(name='tab2d_nx%d_pol%d' % (nx, pol), src='h_pvt2d.cpp', defs={'HNX': nx, 'HPOL': pol}, entry='h_tab2d', tus=[], fp='real', loopmax=2000, maxsteps=8000000, timeout=900,
+            out.append(dict(name='tab2d_nx%d_pol%d' % (nx, pol), src='h_pvt2d.cpp', defs={'HNX': nx, 'HPOL': pol}, entry='h_tab2d,h_tab2d_dx', tus=[], fp='real', loopmax=2000, maxsteps=8000000, timeout=900,
                             bounds='%d columns x 2 samples, policy %s' % (nx, ('LeftExtreme', 'RightExtreme', 'Vertical')[pol])))
         out.append(dict(name='liveoil_nx%d' % nx, src='h_pvt2d.cpp', defs={'HNX': nx}, entry='h_liveoil', tus=T2, fp='real', loopmax=2000, maxsteps=8000000, timeout=900, bounds='%d Rs nodes x 2 pressures' % nx))
         out.append(dict(name='wetgas_nx%d' % nx, src='h_pvt2d.cpp', defs={'HNX': nx}, entry='h_wetgas', tus=T2, fp='real', loopmax=2000, maxsteps=8000000, timeout=900, bounds='%d pressure nodes x 2 Rv' % nx))
@@ -22,4 +22,6 @@ def jobs(tier):
         out.append(dict(name='psat_%s_nx3' % fam, src='h_pvt2d.cpp', defs=({'HNX': 3, 'PSFIXED': 1} if tier == 'quick' else {'HNX': 3, 'PSFIXED': 1, 'PSAT_SCALAR': 1}), entry='h_%s_psat' % fam, tus=T2, fp='real', loopmax=2000, maxsteps=8000000, timeout=900, bounds='3 nodes, pressure nodes at fixed positions 1, 2.5, 5, Rs/Rv values symbolic'))
     if tier != 'quick':
         out.append(dict(name='psat_nx2', src='h_pvt2d.cpp', defs={'HNX': 2}, entry='h_liveoil_psat,h_wetgas_psat', tus=T2, fp='real', loopmax=2000, maxsteps=8000000, timeout=900, bounds='2 nodes, all symbolic'))
+    out.append(dict(name='closed_form', src='h_ccpvt.cpp', defs={}, entry='h_water,h_ccoil', tus=['opm/material/fluidsystems/blackoilpvt/ConstantCompressibilityWaterPvt.cpp', 'opm/material/fluidsystems/blackoilpvt/ConstantCompressibilityOilPvt.cpp'],
+                    fp='real', loopmax=2000, maxsteps=4000000, bounds='all real PVTW / PVCDO records with |C (p - pref)| < 1/2 and |(C - Cv)(p - pref)| < 1/2'))
     return out
